@@ -38,6 +38,11 @@ class TetrisLegalizer : public LegalizerBase {
   std::pair<bool, int> attemptPlacement(int c, int y) const;
 
   /**
+   * @brief Return the row segment at this y that contains this x
+   */
+  int rowAt(int x, int y) const;
+
+  /**
    * @brief Return possible placement intervals for a given width, height and y
    */
   std::vector<std::pair<int, int> > getPossibleIntervals(int w, int h,
